@@ -654,7 +654,8 @@ class Exec(Engine):
         if h is not None:
             r = h(self, st, e, kind)
             if r is not None: return r
-        raise Unsupported('comprehension at %s (needs a comprehension contract)' % self.loc(e))
+        from . import comp as _comp
+        return _comp.generic(self, e, st, kind)
 
     # ---- calls
     def ev_Call(self, e, st):
@@ -664,6 +665,10 @@ class Exec(Engine):
                 r = h(self, st, e)
                 if r is not None: return r
             raise Unsupported('*args/**kwargs call at %s' % self.loc(e))
+        if isinstance(e.func, ast.Name) and e.func.id in ('all', 'any') and len(e.args) == 1 and not e.keywords and isinstance(e.args[0], ast.GeneratorExp) \
+                and not getattr(self.reg, 'dyn', False) and e.func.id not in st.frames[-1]:
+            from . import comp as _comp
+            return _comp.all_any(self, e, st, e.func.id == 'all')
         out = []
         # lenient contexts: exception constructors, print, logging: arguments are message text
         fname = self.static_name(e.func)
